@@ -418,6 +418,19 @@ func init() {
 			return VBool{r}
 		}
 		m["strings.HasPrefix"] = m["bytes.HasPrefix"]
+		concBin := func(name string, f func(a, b string) Value) {
+			m[name] = func(ex *Exec, fr *frame, cc *ssa.CallCommon, a []Value) Value {
+				x, y := a[0].(VStr), a[1].(VStr)
+				if x.Conc == nil || y.Conc == nil {
+					panic(unsupported{name + " on symbolic strings"})
+				}
+				return f(*x.Conc, *y.Conc)
+			}
+		}
+		concBin("strings.Contains", func(a, b string) Value { return VBool{BoolC(strings.Contains(a, b))} })
+		concBin("strings.HasSuffix", func(a, b string) Value { return VBool{BoolC(strings.HasSuffix(a, b))} })
+		concBin("strings.Trim", func(a, b string) Value { return concStr(strings.Trim(a, b)) })
+		concBin("strings.TrimSuffix", func(a, b string) Value { return concStr(strings.TrimSuffix(a, b)) })
 		m["strings.ToLower"] = func(ex *Exec, fr *frame, cc *ssa.CallCommon, a []Value) Value {
 			s := a[0].(VStr)
 			if s.Conc != nil {
